@@ -313,6 +313,68 @@ theorem walk_ok_path : ∀ (n s : Nat) (pts ts : List Nat), walk n s pts = .ok t
             obtain ⟨st, row, p, h1, h2, h3, h4⟩ := walk_ok_path n t qs ts' hw i (by omega)
             exact ⟨st, row, p, by simp [walkState, hr, hh, h1], h2, by simpa using h3, h4⟩
 
+/-- the row the decoder searches is exactly what the table holds at `start .. start+k-1` -/
+theorem rowFrom_mem : ∀ (k start : Nat) (xs : List Nat), rowFrom start k = .ok xs → ∀ p,
+    (p ∈ xs ↔ ∃ t, t < k ∧ transition[start + t]? = some p)
+  | 0, start, xs, h, p => by
+    simp only [rowFrom, Except.ok.injEq] at h
+    subst h; simp
+  | k + 1, start, xs, h, p => by
+    simp only [rowFrom, indexR] at h
+    cases hx : transition[start]? with
+    | none => simp [hx] at h
+    | some x =>
+      simp only [hx] at h
+      cases hr : rowFrom (start + 1) k with
+      | error e => simp [hr] at h
+      | ok ys =>
+        simp only [hr, Except.ok.injEq] at h
+        subst h
+        have ih := rowFrom_mem k (start + 1) ys hr p
+        simp only [List.mem_cons, ih]
+        constructor
+        · rintro (rfl | ⟨t, ht, hp⟩)
+          · exact ⟨0, by omega, by simpa using hx⟩
+          · exact ⟨t + 1, by omega, by rw [← hp]; congr 1; omega⟩
+        · rintro ⟨t, ht, hp⟩
+          cases t with
+          | zero => left; simp only [Nat.add_zero, hx, Option.some.injEq] at hp; exact hp.symm
+          | succ t => right; exact ⟨t, by omega, by rw [← hp]; congr 1; omega⟩
+
+/-- a point is in the row of state `st` iff the encoder emits it from `st` for some tribit -/
+theorem mem_row_iff_emit (st : Nat) (row : List Nat) (h : rowOf st = .ok row) (p : Nat) :
+    p ∈ row ↔ ∃ t, t < 8 ∧ emit st [t] = .ok [p] := by
+  rw [rowFrom_mem 8 (st * 8) row h p]
+  constructor
+  · rintro ⟨t, ht, hp⟩
+    exact ⟨t, ht, by simp [emit, indexR, hp]⟩
+  · rintro ⟨t, ht, hp⟩
+    refine ⟨t, ht, ?_⟩
+    simp only [emit, indexR] at hp
+    cases hx : transition[st * 8 + t]? with
+    | none => simp [hx] at hp
+    | some x => simp only [hx, Except.ok.injEq, List.cons.injEq, and_true] at hp; rw [hp]
+
+/-- along an encoder output the decoder's state before point `i` is the encoder's state there:
+the start state for `i = 0`, else the previous tribit -/
+theorem walkState_emit (H : TablesOk) : ∀ (ts : List Nat) (s i : Nat) (pts : List Nat), s < 8 →
+    (∀ t ∈ ts, t < 8) → i ≤ ts.length → emit s ts = .ok pts →
+    ∃ st, (s :: ts)[i]? = some st ∧ walkState i s pts = .ok st
+  | ts, s, 0, pts, _, _, _, _ => ⟨s, by simp, by simp [walkState]⟩
+  | [], s, i + 1, pts, _, _, hi, _ => by simp at hi
+  | t :: ts, s, i + 1, pts, hs, hts, hi, he => by
+    have ht : t < 8 := hts t (by simp)
+    obtain ⟨row, p, hrow, hidx, _, _, hhit⟩ := trans_spec H hs ht
+    simp only [emit, hidx] at he
+    cases hr : emit t ts with
+    | error e => simp [hr] at he
+    | ok ps =>
+      simp only [hr, Except.ok.injEq] at he
+      subst he
+      obtain ⟨st, h1, h2⟩ := walkState_emit H ts t i ps ht (fun x hx => hts x (by simp [hx]))
+        (by simpa using hi) hr
+      exact ⟨st, by simpa using h1, by simp [walkState, hrow, hhit, h2]⟩
+
 /-! ## points ↔ dibits, dibits ↔ bits -/
 
 theorem pointsToDibits_inv (H : TablesOk) : ∀ (pts : List Nat), (∀ p ∈ pts, p < 16) →
